@@ -1,4 +1,8 @@
 RULES = [
+    ("C04-F2", "a held value of the cell's own signal type that is produced by a combinator (Signal hk = hm * 2, both on the "
+               "cell's type) added to the cell: both operands of the feedback adder read the same wire colour, so the "
+               "cell iterates 2*m + 2*hk instead of m + hk (single-step loops and unoptimised chains)",
+     lambda c, d: "+hk" in c["chain"]),
     ("C04-F1", "a chain in which one held input is added twice (m.write(m.read() + d + d), also with other steps in between): the cell iterates "
                "2*m + 2*d instead of m + 2*d (the feedback is counted twice)",
      lambda c, d: c["chain"].count("+h") >= 2),
